@@ -3,6 +3,8 @@ CONSTANTS
   Seeds <- SeedsDef
   Worlds <- WorldsDef
   PriorOpts <- PriorOptsDef
+  MeasuredOpts <- MeasuredOptsDef
+  SlowWorlds <- SlowWorldsDef
   NFiles = 3
   MaxPrior = 2
 INVARIANT Deterministic
